@@ -72,12 +72,22 @@ def _exc(e):
     return ["exception", info["cls"], (info["message"] or "")[:80], info["frame"], bool(info["family"])]
 
 
+def _prog_size(re_obj):
+    """Size of the compiled program, read fail-soft from the engine's private attribute; None when it
+    cannot be read (the clauses that depend on it then do not judge)."""
+    bc = getattr(re_obj, "_bytecode", None) if re_obj is not None else None
+    try:
+        return len(bc) or None
+    except TypeError:
+        return None
+
+
 def stack_error_legit(L, prog_size):
     """With the zero-width-iteration guards a path visits each (pc, position) pair at most
     once, so at most (L+1)*|program| backtrack entries can be pending: the stack budget can
     only be exhausted when that product exceeds it.  Exhausting it on a shorter subject
     means an empty loop is spinning."""
-    return prog_size is None or (L + 1) * prog_size > STACK_LIMIT
+    return not prog_size or (L + 1) * prog_size > STACK_LIMIT
 
 
 def _maxrss():
@@ -262,7 +272,7 @@ def eval_a_py(p, f, s, guard_on=False):
     """Python-API part of campaign (a) for one (pattern, flags, subject). -> (violations, info)"""
     kind, detail, cpu, re_obj, polls = py_construct(p, f)
     viol = [(sig, {"sub": "A", "entry": "py", "p": p, "f": f}, e, a) for sig, e, a in judge_construct_py(p, f, kind, detail, cpu, re_obj)]
-    info = {"py": kind, "cpu": cpu, "size": len(getattr(re_obj, "_bytecode", None) or ()) if re_obj is not None else None}
+    info = {"py": kind, "cpu": cpu, "size": _prog_size(re_obj)}
     if kind == "ok" and s is not None and guard_on and G.has_lookaround(p):
         info["excluded"] = KNOWN_LOOKAROUND
     elif kind == "ok" and s is not None:
@@ -441,7 +451,7 @@ def _rejudge_a(case):
             return [("A|py-exec|exception %s at %s" % (out[1][1], out[1][3]), "match, null, RegexStackOverflow or RegexTimeoutError", out[1])]
         if out[0] in ("cpu", "budget"):
             return [("A|py-exec|steps beyond (len+1)*step_limit", ["polls<=", limit], [out[0], npolls])]
-        size = len(getattr(re_obj, "_bytecode", None) or ()) or None
+        size = _prog_size(re_obj)
         if out[0] == "stack" and not stack_error_legit(len(case.get("s", "")), size):
             return [("A|py-exec|stack budget exhausted on a short subject (empty loop spins)", "match or null", ["RegexStackOverflow", "len", len(case.get("s", "")), "program", size])]
         return []
@@ -581,7 +591,7 @@ def b_eval(case):
     out = {"L": L, "prog": None}
     try:
         with cpu_alarm(CONSTRUCT_ALARM_S):
-            out["prog"] = len(getattr(rx.RegExp(case["pat"], case["flags"]), "_bytecode", None) or ())
+            out["prog"] = _prog_size(rx.RegExp(case["pat"], case["flags"]))
     except BaseException:  # noqa - construction is judged by campaign (a)
         pass
     rss0 = _maxrss()
